@@ -63,29 +63,52 @@ func verifC02BuildBlock(a *verifC02Archive, b *verifC02Block, shape []int, hasPo
 	return all
 }
 
-// verifC02Shape enumerates entry shapes: 1..maxEntries entries with 0..maxTxs transactions each.
-func verifC02Shape(maxEntries, maxTxs int) []int {
+// verifC02Shape enumerates entry shapes: 1..maxEntries entries with 0..maxTxs transactions each,
+// at most maxTotal transactions in the block.
+func verifC02Shape(maxEntries, maxTxs, maxTotal int) []int {
 	n := 1 + verifChoice("entries", maxEntries)
 	shape := make([]int, n)
 	for i := range shape {
-		shape[i] = verifChoice("ntx", maxTxs+1)
+		room := maxTxs
+		if maxTotal < room {
+			room = maxTotal
+		}
+		shape[i] = verifChoice("ntx", room+1)
+		maxTotal -= shape[i]
 	}
 	return shape
 }
 
 // verifC02BlockScene builds the server: the target epoch with the requested block and its parent,
-// plus the neighbour epochs selected by `others` (bit 0: the previous epoch, bit 1: the next one,
-// bit 2: one two further), each holding a block of its own.
+// plus neighbour epochs, each holding a block of its own. Two scenarios split the enumeration:
+//
+//	header (0): every epoch configuration (target epoch 0 / 1 / 7; neighbours selected by `others`,
+//	  bit 0: the previous epoch, bit 1: the next one, bit 2: one three further), slot 0 or an arbitrary
+//	  slot of the epoch, arbitrary parent slot below it, height recorded or not, arbitrary block time,
+//	  parent block with 1..2 entries, rewards absent / in one frame / in two frames; the block itself
+//	  has one entry with one transaction.
+//	transactions (1): epoch 1 loaded alone or with epoch 0 and 2, parent in the previous epoch; every entry
+//	  shape (1..maxEntries entries x 0..maxTxs transactions, at most maxTotal transactions), positions
+//	  recorded (arbitrary distinct values) or not, metadata present or empty, payload layout plans.
 func verifC02BlockScene(symHash bool) *verifC02Scene {
 	verifC02Reset()
 	sc := &verifC02Scene{}
 	sc.multi = NewMultiEpoch(&Options{EpochSearchConcurrency: 1})
-	E := verifC02TargetEpochs[verifChoice("epoch", verifParam("epochs", len(verifC02TargetEpochs)))]
+	scen := verifParam("scenario", -1)
+	if scen < 0 {
+		scen = verifChoice("scenario", 2)
+	}
+	header := scen == 0
+	E, others := uint64(1), 0
+	if header {
+		E = verifC02TargetEpochs[verifChoice("epoch", verifParam("epochs", len(verifC02TargetEpochs)))]
+		others = verifChoice("others", verifParam("others", 8))
+	} else {
+		others = 3 * verifChoice("others", 2)
+	}
 	a := verifC02NewEpoch(E)
 	sc.a = a
 	sc.multi.epochs[E] = a.e
-
-	others := verifChoice("others", verifParam("others", 4))
 	for bit, num := range []uint64{E - 1, E + 1, E + 3} {
 		if others&(1<<bit) == 0 || (E == 0 && bit == 0) {
 			continue
@@ -98,7 +121,7 @@ func verifC02BlockScene(symHash bool) *verifC02Scene {
 	}
 
 	b := &verifC02Block{}
-	genesisBlock := E == 0 && verifChoice("slot0", 2) == 1
+	genesisBlock := header && E == 0 && verifChoice("slot0", 2) == 1
 	if genesisBlock {
 		b.slot, b.parent = 0, 0
 	} else {
@@ -107,28 +130,43 @@ func verifC02BlockScene(symHash bool) *verifC02Scene {
 		b.parent = verifU64("parentSlot")
 		verifAssume(b.parent < b.slot)
 	}
-	b.blocktime = uint64(verifU32("blocktime"))
-	b.hasHeight = verifChoice("hasHeight", 2) == 1
-	if b.hasHeight {
-		b.height = verifU64("height")
-		verifAssume(b.height < 1<<62)
+	nData, nMeta := verifParam("dataLen", 2), verifParam("metaLen", 2)
+	if header {
+		b.blocktime = uint64(verifU32("blocktime"))
+		b.hasHeight = verifChoice("hasHeight", 2) == 1
+		if b.hasHeight {
+			b.height = verifU64("height")
+			verifAssume(b.height < 1<<62)
+		}
+		if k := verifChoice("rewards", 1+verifParam("rewardsLayouts", 2)); k > 0 {
+			r := a.payload("rewards", verifParam("rewardsLen", 2), (k-1)*2, false)
+			b.rewards = &r
+		}
+	} else {
+		verifAssume(b.parent < a.lo()) // parent in the previous epoch
+		b.blocktime, b.hasHeight, b.height = 1700000000, true, 200000000
 	}
 
-	// the parent block (archived in this epoch when its slot is in this epoch's range)
+	// the parent block (found by this epoch's index when its slot is in this epoch's range)
 	if !genesisBlock {
 		p := &verifC02Block{slot: b.parent, parent: 0, blocktime: 5}
-		verifC02BuildBlock(a, p, []int{0, 1}[:1+verifChoice("parentEntries", 2)], true, 0, 1, 0, false, symHash)
+		pshape := []int{1}
+		if header && verifChoice("parentEntries", 2) == 1 {
+			pshape = []int{0, 1}
+		}
+		verifC02BuildBlock(a, p, pshape, true, 0, 1, 0, false, symHash)
 		sc.parent = p
 	}
 
-	if verifChoice("rewards", 2) == 1 {
-		r := a.payload("rewards", verifParam("rewardsLen", 2), verifChoice("rewardsLayout", verifParam("rewardsLayouts", 2))*2, false)
-		b.rewards = &r
+	if header {
+		sc.hasPos = true
+		sc.txs = verifC02BuildBlock(a, b, []int{1}, true, 0, nData, nMeta, false, symHash)
+	} else {
+		sc.hasPos = verifChoice("positions", 2) == 1
+		shape := verifC02Shape(verifParam("maxEntries", 2), verifParam("maxTxs", 2), verifParam("maxTotal", 4))
+		plan := verifChoice("layoutPlan", verifParam("layoutPlans", 1))
+		sc.txs = verifC02BuildBlock(a, b, shape, sc.hasPos, plan, nData, nMeta*verifChoice("metaPresent", 2), verifParam("frameHash", 0) == 1, symHash)
 	}
-	sc.hasPos = verifChoice("positions", 2) == 1
-	shape := verifC02Shape(verifParam("maxEntries", 2), verifParam("maxTxs", 2))
-	plan := verifChoice("layoutPlan", verifParam("layoutPlans", 1))
-	sc.txs = verifC02BuildBlock(a, b, shape, sc.hasPos, plan, verifParam("dataLen", 2), verifParam("metaLen", 2)*verifChoice("metaPresent", 2), verifParam("frameHash", 0) == 1, symHash)
 	sc.b = b
 	return sc
 }
